@@ -342,6 +342,10 @@ def run(prog, ctx):
     res.obligations += r16.obligations
     res.discharged += r16.discharged
     res.rule("C09.H", n_h, 10, "hash-implementation obligations shared with C16 (XXH64 subset reported here)")
+    # a filter's own image is read back (inserted items stay contained after serialization): the Bloom part of the writer ->
+    # reader co-simulation, including saturated filters (every bit set) and whole-word bit counts
+    C.import_rules(res, prog, dict(ctx, families=["bloom"]), "C09.R", "C11", ("C11.L", "C11.K"), "Bloom image read back by its own reader", 6,
+                   key_filter=lambda k: "|bloom|" in k)
     res.explanation = ("formula and structural rules over the %d functions reachable from the BloomFilter mutators and contains(): index formula on a "
                        "grid, double hashing seeds, sibling agreement of check/set, word/bit split, count maintenance" % len(reach))
     res.not_decided = "measured false-positive rate"
